@@ -302,7 +302,7 @@ static int is_put_stream(buf_t *b, int holder) {
     long w; for (uint32_t i = 0; i < nops; i++) if (ops[i]->kind == OP_PUTREQ && ops[i]->peer == holder && ops[i]->issued && 0 == buf_check(b, put_key(holder, me, i), &w)) return 1;
     return 0;
 }
-static uint64_t clash_seen;
+static uint64_t clash_seen; static int scenario_reported;
 /* completion of a put on the requester (remote side): runs as an AM-style callback named by the request */
 static int put_remote_cb(parsec_comm_engine_t *ce, parsec_ce_tag_t tag, void *msg, size_t size, int src, void *cb_data) {
     (void)tag; (void)cb_data; cbdata_t c; long w;
@@ -491,16 +491,18 @@ int main(int argc, char **argv) {
      * same tag on the unchanged engine -- and a transfer-tag allocator that hands out a tag still in use shows. ---- */
     long tag_offset = vf_arg_ll(argc, argv, "--tag-offset", 0);
     if (tag_offset > 0) {
-        long want = (long)me * tag_offset, issued = 0; int alldone = 0;
+        long want = (long)me * tag_offset, issued = 0; int alldone = 0, idle = 0; int64_t lastev = -1;
         force_region = 0;                            /* region 0 is the zero-byte region */
-        while (!alldone) {
+        while (!alldone && idle < idle_rounds_max) {
             for (int b = 0; b < 64 && issued < want; b++, issued++) { force_peer = (me + 1 + (int)(issued % (world - 1))) % world; if (force_peer == me) force_peer = (me + 1) % world; get_issue(); }
             progress_n(kprog);
-            int mine = (issued == want && get_lcb_n == (uint64_t)want && !get_defer_head), sum = 0;
-            MPI_Request rq; int fl = 0; MPI_Iallreduce(&mine, &sum, 1, MPI_INT, MPI_SUM, MPI_COMM_WORLD, &rq);
+            int64_t mine[2] = { (issued == want && get_lcb_n == (uint64_t)want && !get_defer_head), (int64_t)events }, sum[2];
+            MPI_Request rq; int fl = 0; MPI_Iallreduce(mine, sum, 2, MPI_INT64_T, MPI_SUM, MPI_COMM_WORLD, &rq);
             while (!fl) { MPI_Test(&rq, &fl, MPI_STATUS_IGNORE); if (!fl) progress_n(1); }
-            alldone = (sum == world);
+            alldone = (sum[0] == world);
+            if (sum[1] == lastev) idle++; else { idle = 0; lastev = sum[1]; }
         }
+        if (!alldone) vf_violation("onesided:get:never-completed", "rank %d: %lu of %ld zero-byte warm-up gets completed at global quiescence (dyn=%d dynrecv=%d)", me, (unsigned long)get_lcb_n, want, p_dyn, p_dynrecv);
         force_peer = -1; force_region = -1;
     }
 
@@ -514,6 +516,17 @@ int main(int argc, char **argv) {
         if (me == 0) { put_immediate_permille = 1000; while (put_started < 1) { parsec_ce.progress(&parsec_ce); serve_queues(); } }
         MPI_Barrier(MPI_COMM_WORLD);
         if (me == 1) { force_region = g; get_issue(); force_peer = -1; force_region = -1; }
+    }
+
+    /* ---- scenario: two processes get from each other at the same time while every dynamic request slot may hold a
+     * receive (runtime_comm_mpi_dynamic_recv_requests == runtime_comm_mpi_dynamic_requests, e.g. 1/1) ---- */
+    const char *scenario_key = NULL;
+    if (!strcmp(scenario, "crossing-gets")) {
+        int g = -1; for (int i = 0; i < ngreg; i++) if (greg_lay[i].nbytes >= 512 && greg_lay[i].nbytes <= 8192) g = i;
+        if (g < 0) g = ngreg - 1;
+        if (me < 2) { force_peer = 1 - me; force_region = g; for (int k = 0; k < (p_dyn > 0 ? p_dyn : 1); k++) get_issue(); force_peer = -1; force_region = -1; }
+        MPI_Barrier(MPI_COMM_WORLD);        /* both have posted their receives before either serves the other's request */
+        scenario_key = "onesided:get:crossing-gets-deadlock";
     }
 
     /* ---- lock-step rounds ---- */
@@ -653,13 +666,14 @@ int main(int argc, char **argv) {
         for (uint32_t i = 0; i < nops; i++) {
             op_t *o = ops[i];
             if (o->done == 1) continue;
-            if (o->done == 0) vf_violation(o->kind == OP_GET ? (o->issued ? "onesided:get:never-completed" : "onesided:get:never-servable") : "onesided:put:never-completed",
+            if (o->done == 0 && scenario_key) { if (!scenario_reported++) vf_violation(scenario_key, "rank %d: get opid %u of %u bytes from %d never completed: at global quiescence the dynamic request slots of both processes hold the receives of their own gets and the replies stay queued (dyn=%d dynrecv=%d)", me, o->opid, o->buf.lay.nbytes, o->peer, p_dyn, p_dynrecv); }
+            else if (o->done == 0) vf_violation(o->kind == OP_GET ? (o->issued ? "onesided:get:never-completed" : "onesided:get:never-servable") : "onesided:put:never-completed",
                                            "rank %d: %s opid %u with peer %d (%u bytes) had no completion at global quiescence (dyn=%d dynrecv=%d)", me, o->kind == OP_GET ? "get" : "requested put", o->opid, o->peer, o->buf.lay.nbytes, p_dyn, p_dynrecv);
         }
         uint64_t exp_req = 0, exp_getrcb = 0;
         for (int s = 0; s < world; s++) if (s != me) { uint32_t *ts = tot_all + (size_t)s * MAXR * TV + (size_t)me * TV; exp_req += ts[ntags * 5]; exp_getrcb += ts[(MAXT + 1) * 5]; }
         if (put_started != putreq_recv || put_lcb != put_started) vf_violation("onesided:put:local-callback-lost", "rank %d: %lu requests received, %lu puts started, %lu local completions", me, (unsigned long)putreq_recv, (unsigned long)put_started, (unsigned long)put_lcb);
-        if (get_rcb_n != exp_getrcb) vf_violation(get_rcb_n < exp_getrcb ? "onesided:get:remote-callback-lost" : "onesided:get:remote-callback-extra", "rank %d: %lu source-side get completions, %lu gets were aimed here", me, (unsigned long)get_rcb_n, (unsigned long)exp_getrcb);
+        if (get_rcb_n != exp_getrcb && !(scenario_key && get_rcb_n < exp_getrcb)) vf_violation(get_rcb_n < exp_getrcb ? "onesided:get:remote-callback-lost" : "onesided:get:remote-callback-extra", "rank %d: %lu source-side get completions, %lu gets were aimed here", me, (unsigned long)get_rcb_n, (unsigned long)exp_getrcb);
     }
     long w;
     for (int g = 0; g < ngreg; g++) if (buf_check(&greg_buf[g], get_key(me, g), &w)) vf_violation("onesided:get:source-modified", "rank %d: get source region %d changed at offset %ld", me, g, w);
